@@ -97,7 +97,7 @@ static void observe(World& w, const std::string& kase)
   for (int i = 0; i < 3; i++) {
     auto& sb = w.s[i];
     uintptr_t region = SB::base_of_index(i);
-    if (m.st[i] == S_FAILED) continue; // unconstrained by the statement
+    // an object whose last create failed never had a successful create: it is outside the window like a not-created one
     std::vector<uintptr_t> probes = { region, region + 1, region + 0x8000, region + SB::kSize - 1 };
     for (uintptr_t a : probes) {
       SB* f = nullptr;
@@ -223,7 +223,6 @@ static bool apply(World& w, const Op& op)
     }
     case 'r': {
       if (w.own[i]) return true; // one owner slot per object
-      if (m.st[i] == S_FAILED) return false;
       auto o = attempt([&] { w.own[i].emplace(sb.register_callback(cbf)); });
       if (m.st[i] != S_CREATED) {
         n_nontriv++;
@@ -323,7 +322,7 @@ static void probes(const std::vector<Op>& h)
 {
   for (int i = 0; i < 3; i++) {
     World w;
-    if (replay(w, h) && w.m.st[i] != S_FAILED) {
+    if (replay(w, h)) {
       bool expect_ok = w.m.st[i] == S_CREATED && !w.m.registered(i);
       if (w.m.st[i] == S_CREATED) {
         std::optional<CB> tmp;
